@@ -749,7 +749,12 @@ func main() {
 		run.Capped("budget")
 	}
 	if n := e.nonrepro.Load(); n > 0 {
-		fw.Fatalf("%d host-state changes did not reproduce on a fresh tree (harness nondeterminism); see notes", n)
+		// only a harness error when nothing else was found (a state-dependent breakage, e.g. a stale host descriptor
+		// number, can produce changes that do not reproduce next to changes that do; those carry the verdict)
+		if run.Violations() == 0 {
+			fw.Fatalf("%d host-state changes did not reproduce on a fresh tree (harness nondeterminism); see notes", n)
+		}
+		run.Note("%d host-state changes did not reproduce on a fresh tree and were dropped", n)
 	}
 
 	outcomes := map[string]int64{}
